@@ -857,6 +857,12 @@ class TermBuilder:
             fn = b(e.func)
             args = tuple(('star', b(a.value)) if isinstance(a, ast.Starred) else b(a) for a in e.args)
             kws = tuple(sorted(((k.arg or '**'), b(k.value)) for k in e.keywords))
+            if fn[0] == 'attr' and fn[2] in ('sum', 'max', 'min', 'argmax', 'argmin', 'argsort', 'any', 'all') and not args \
+                    and fn[1][0] in ('call', 'sub', 'bin', 'v') and not (fn[1][0] == 'v' and fn[1][2] == 'P' and fn[1][1] == 'self'):
+                # X.sum() is numpy.sum(X) for the arrays this package handles (lists have no such methods)
+                return simplify_call(('call', ('g', 'numpy.' + fn[2]), (fn[1],), kws))
+            if fn == ('g', 'numpy.count_nonzero') and len(args) == 1 and not kws and args[0][0] == 'cmp':
+                return ('call', ('g', 'builtins.len'), (('sub', ('call', ('g', 'numpy.where'), (args[0],), ()), ('c', 0)),), ())
             inl = self.inline_call(e, fn, args, kws)
             if inl is not None:
                 return inl
